@@ -322,6 +322,8 @@ template <typename DstChannelV> struct channel_converter_unsigned<float32_t,DstC
     auto operator()(float32_t x) const -> DstChannelV
     {
         using dst_integer_t = typename detail::unsigned_integral_max_value<DstChannelV>::value_type;
+        // for wide destinations max*1.0f+0.5f rounds up to max+1; ensure that max_value of float32_t matches max_value of the destination
+        if (x>=channel_traits<float32_t>::max_value()) return channel_traits<DstChannelV>::max_value();
         return DstChannelV( static_cast< dst_integer_t >(x*channel_traits<DstChannelV>::max_value()+0.5f ));
     }
 };
